@@ -238,7 +238,7 @@ def main():
         build_msg = str(e)
         cov["build"] = {"error": build_msg[-1500:]}
     bad_words = common.audit_sources()
-    th = common.property_theorems(pid) if build_ok else {"theorems": [], "ok": False, "axioms": [],
+    th = common.property_theorems(pid, cfg.get("property_files", ())) if build_ok else {"theorems": [], "ok": False, "axioms": [],
                                                          "closed": 0, "output": "build failed"}
     cov["theorems"] = th["theorems"]
     cov["axioms_reported"] = th["axioms"]
